@@ -1,4 +1,5 @@
 import OjgVerif.Sen.LemmasStr
+import OjgVerif.Sen.LemmasUtf8
 /-! # C10 — SEN writer and parser round-trip every value (the string level)
 
 The statement is about two generated tables and two pieces of logic that have to be inverse:
@@ -313,6 +314,26 @@ theorem C10_key_partial (s : Bytes) (html : Bool) (h2 : ¬ leadingSign s html) :
   · cases hq : senQuoted s html with
     | true => exact quoted_key s html (quoted_form s html (Or.inr hq))
     | false => exact bare_key s html hne hq h2
+
+/-- **C10 at string level for valid UTF-8, value position**: a well-formed UTF-8 string (Unicode Table 3-7,
+`Sen.WellFormedUtf8`) that is not a reserved word and has no leading sign comes back as ITSELF -/
+theorem C10_value_valid (s : Bytes) (html : Bool) (hv : WellFormedUtf8 s) (h1 : ¬ reservedWord s)
+    (h2 : ¬ leadingSign s html) : parsesTo (valueDoc s html) (.arr [.str s]) := by
+  have h := C10_value_partial s html h1 h2
+  rwa [sanitize_valid s hv] at h
+
+/-- the same in key position -/
+theorem C10_key_valid (s : Bytes) (html : Bool) (hv : WellFormedUtf8 s) (h2 : ¬ leadingSign s html) :
+    parsesTo (keyDoc s html) (.obj [(s, .int 1)]) := by
+  have h := C10_key_partial s html h2
+  rwa [sanitize_valid s hv] at h
+
+/-- the invalid-UTF-8 case (what `C10_value_partial` says beyond `C10_value_valid`): every byte that does not
+start a well-formed sequence comes back as U+FFFD — `"a\x80b"` comes back as `"a\uFFFDb"` -/
+example : parsesTo (valueDoc [97, 0x80, 98] false) (.arr [.str [97, 0xEF, 0xBF, 0xBD, 98]]) := by
+  have h := C10_value_partial [97, 0x80, 98] false (by decide) (by decide)
+  have e : sanitize [97, 0x80, 98] = [97, 0xEF, 0xBF, 0xBD, 98] := by decide
+  rwa [e] at h
 
 /-- non-vacuity: strings that meet the hypotheses — `ab` is written bare, `12` is quoted because of
 its first byte, `- \xff` is quoted (a space, invalid UTF-8) although it begins with a sign -/
